@@ -108,6 +108,31 @@ def check_pair(inp):
         for key in sorted(xa):
             if xa[key] != xb.get(key):
                 fails.append(failure(xa[key], xb.get(key), note="%s differs between equal objects" % key))
+    # objects that exist besides the ones the constructor returns: copies, and instances of a subclass that adds nothing
+    for how in obs.CLONERS:
+        c = obs.clone(oa, how)
+        if c is None:
+            continue
+        if not (c == oa) or not (oa == c) or (c != oa) or hash(c) != hash(oa):
+            fails.append(failure("a copy equals its original, both ways round, with the same hash", [c == oa, oa == c, c != oa, hash(c) == hash(oa)], note=how))
+        elif obs.observables(va, c) != obs.observables(va, oa):
+            fails.append(failure(obs.observables(va, oa), obs.observables(va, c), note="outputs of a copy (%s)" % how))
+        if (c == ob) is not want:
+            fails.append(failure(want, (c == ob), note="%s of a compared with b" % how))
+    try:
+        sa = obs.trivial_subclass(obs.classes()[va])(a)
+    except Exception as e:  # noqa
+        fails.append(failure("class Sub(C): pass accepts what C accepts", "%s: %s" % (type(e).__name__, e)))
+        sa = None
+    if sa is not None:
+        for x in (oa, ob):
+            eq = [(sa == x), (x == sa)]
+            if eq[0] is not eq[1]:
+                fails.append(failure("symmetric", eq, note="instance of a subclass that adds nothing, compared with a plain object"))
+            if eq[0] is True and hash(sa) != hash(x):
+                fails.append(failure("equal hashes", [hash(sa), hash(x)], note="an instance of 'class Sub(C): pass' equals the plain object but hashes differently"))
+        if obs.observables(va, sa, with_hash=False) != obs.observables(va, oa, with_hash=False):
+            fails.append(failure(obs.observables(va, oa, with_hash=False), obs.observables(va, sa, with_hash=False), note="outputs of an instance of 'class Sub(C): pass'"))
     if (oa in {ob}) is not want or (ob in [oa]) is not want:
         fails.append(failure(want, [(oa in {ob}), (ob in [oa])], note="membership in set / list"))
     if len({oa, ob}) != (1 if want else 2):
